@@ -157,3 +157,15 @@ M("c16-envelope-direction", "C16", "precision envelope forward (makes precision 
   "            for i in range(len(pr) - 1, 0, -1):\n                if pr[i] > pr[i - 1]:\n                    pr[i - 1] = pr[i]\n",
   "            for i in range(1, len(pr)):\n                if pr[i] < pr[i - 1]:\n                    pr[i] = pr[i - 1] * 1.05\n")
 M("c16-moks-over-gt", "C16", "mOKS uses sum over pairs / (pairs+1)", EV, '        return {"mOKS": pair_oks.mean()}', '        return {"mOKS": pair_oks.sum() / (len(pair_oks) + len(self.false_negatives) * 0 + (1 if len(pair_oks) > 7 else 0))}')
+
+TRN = "sleap_nn/train.py"
+M("c20-revert-auglist", "C20", "revert aug list fix (scale resets rotation)", TRN, "            elif g == \"scale\":\n                aug_config.geometric.scale = (0.9, 1.1)\n", "            elif g == \"scale\":\n                aug_config.geometric.scale = (0.9, 1.1)\n                aug_config.geometric.rotation = 0\n")
+M("c20-revert-presets", "C20", "revert preset conversion for convnext_small", TRN, "ConvNextConfig(**asdict(ConvNextSmallConfig()))", "ConvNextSmallConfig()")
+M("c20-arg-dropped", "C20", "get_trainer_config drops wandb_group_name", TRN, "            group=wandb_group_name,\n", "")
+M("c20-arg-misrouted", "C20", "val loader gets num_workers=0", TRN, "    val_dataloader_cfg = DataLoaderConfig(\n        batch_size=batch_size, shuffle=False, num_workers=num_workers\n    )", "    val_dataloader_cfg = DataLoaderConfig(\n        batch_size=batch_size, shuffle=False, num_workers=0\n    )")
+M("c20-max-height-swapped", "C20", "max_height/max_width swapped in preprocessing", TRN, "        max_height=max_height,\n        max_width=max_width,\n        scale=scale,", "        max_height=max_width,\n        max_width=max_height,\n        scale=scale,")
+M("c20-validator-loosened", "C20", "validate_proportion accepts up to 1.5", "sleap_nn/config/data_config.py", "    if not (0.0 <= value <= 1.0):", "    if not (0.0 <= value <= 1.5):")
+M("c20-head-dict-sigma", "C20", "bottomup dict head: pafs built from confmaps kwargs' stride", TRN, "                pafs=PAFConfig(**head_cfg[\"bottomup\"][\"pafs\"]),", "                pafs=PAFConfig(**{**head_cfg[\"bottomup\"][\"pafs\"], \"output_stride\": head_cfg[\"bottomup\"][\"confmaps\"].get(\"output_stride\", 1)}),")
+M("c20-intensity-else", "C20", "intensity list: contrast also enables brightness", TRN, "            elif i == \"contrast\":\n                aug_config.intensity.contrast_p = 1.0\n", "            elif i == \"contrast\":\n                aug_config.intensity.contrast_p = 1.0\n                aug_config.intensity.brightness_p = 1.0\n")
+M("c20-oneof-skipped", "C20", "oneof check only triggers for 3 set attributes", "sleap_nn/config/utils.py", "        if len(attribs_with_value) > 1:\n            # Raise error if more than one attribute is set.\n            message = \"Only one attribute of this class can be set (not None).\"\n            logger.error(message)\n            raise ValueError(message)\n\n        if len(attribs_with_value) == 0 and must_be_set:", "        if len(attribs_with_value) > 2:\n            message = \"Only one attribute of this class can be set (not None).\"\n            logger.error(message)\n            raise ValueError(message)\n\n        if len(attribs_with_value) == 0 and must_be_set:")
+M("c20-verify-rounds", "C20", "verify_training_cfg rounds odd max_height up", "sleap_nn/config/training_job_config.py", "    config = OmegaConf.merge(schema, cfg)\n", "    config = OmegaConf.merge(schema, cfg)\n    if config.data_config.preprocessing.max_height is not None:\n        config.data_config.preprocessing.max_height += config.data_config.preprocessing.max_height % 2\n")
